@@ -28,7 +28,8 @@ RULE = ("a case = script of <= 6 steps, each a witness call or a hostile connect
         "24..20000-character locations built from 8 repeat units x 11 tails, float and exception class dicts, 50..100000-fold nested "
         "lists written by hand), sent to a daemon running in a process of its own. Non-trivial: some hostile message passes the tag/version prefix check or is sent after a successful "
         "handshake; distinct = distinct case JSON")
-ASSUMPTIONS = ["every hostile connection ends with a disconnect (a silent stalled client legitimately occupies a worker)",
+ASSUMPTIONS = ["every hostile connection ends with a disconnect - or, in the COMMTIMEOUT shards only, stays silent after its last byte and must be dropped by "
+               "the daemon's own timeout (without a timeout a silent stalled client legitimately occupies a worker)",
                "MAX_MESSAGE_SIZE is 256 KiB in the daemon process so that boundary length fields do not allocate gigabytes",
                "COMMTIMEOUT shards: an idle witness may be dropped by the server's own timeout; then only 'never a wrong answer, reconnect works' is demanded",
                "methods raise Exception subclasses only (not BaseException-only classes)",
@@ -103,6 +104,12 @@ def _classes():
                 return 1 // 0
             raise LookupError(kind)
 
+        def annotate_and_fail(self, kind):
+            # leaves a response annotation behind and fails: nobody else's reply may ever carry it
+            from Pyro5.callcontext import current_context
+            current_context.response_annotations = {"HOST": b"set by a hostile call"}
+            return self.raise_it(kind)
+
         @api.callback
         def raise_cb(self, kind):
             # a method flagged @callback: the daemon re-raises what it raises on the server side as well (documented feature)
@@ -118,7 +125,7 @@ RAISE_KINDS = ["value", "weird", "sock", "lambda", "str", "repr", "reduce", "hug
 MUTATIONS = c06_wire.MUTATIONS + ["oversize", "bad-ser", "bad-ser", "bad-type"]
 
 msg_spec = st.fixed_dictionaries({
-    "base": st.sampled_from(["connect", "connect", "invoke", "invoke", "invoke", "ping", "garbage", "raise", "raise", "stream", "raise_cb"]),
+    "base": st.sampled_from(["connect", "connect", "invoke", "invoke", "invoke", "ping", "garbage", "raise", "raise", "stream", "raise_cb", "raise_ann"]),
     "ser": st.sampled_from(["marshal", "json", "serpent", "msgpack"]),
     "obj": st.sampled_from(["w", "w", "w", "nope", "Pyro.Daemon", "", 5]),
     "method": st.sampled_from(["f", "f", "raise_it", "nope", "_private", "__class__", "f.x", "gen", 7, None]),
@@ -149,8 +156,9 @@ def build_msg(m):
         mtype, payload = wire.CONNECT, live.raw_dumps(ser, {"handshake": "hello", "object": m["obj"]})
     elif m["base"] == "ping":
         mtype, payload = wire.PING, b"ping"
-    elif m["base"] in ("raise", "raise_cb"):
-        mtype, payload = wire.INVOKE, live.call_payload(ser, "w", "raise_it" if m["base"] == "raise" else "raise_cb", (m["raise_kind"],), {})
+    elif m["base"] in ("raise", "raise_cb", "raise_ann"):
+        mtype, payload = wire.INVOKE, live.call_payload(ser, "w", {"raise": "raise_it", "raise_cb": "raise_cb", "raise_ann": "annotate_and_fail"}[m["base"]],
+                                                        (m["raise_kind"],), {})
     elif m["base"] == "stream":
         mtype, payload = wire.INVOKE, live.call_payload(ser, "w", "gen", (), {})
     else:
@@ -257,6 +265,11 @@ def _run_case(case, servertype=None, commtimeout=None, keep=False, poolsize=None
             if list(got) != want:
                 viol("witness-wrong-answer", "witness %d (%s): got %r, expected %r" % (i, when, got, want))
                 return False
+            import Pyro5.api
+            ann = dict(Pyro5.api.current_context.response_annotations)
+            if ann:
+                viol("witness-reply-carries-foreign-annotation", "witness %d (%s): the reply to its call carries annotations %r that its call never set" % (i, when, ann))
+                return False
             return True
         return False
 
@@ -280,6 +293,13 @@ def _run_case(case, servertype=None, commtimeout=None, keep=False, poolsize=None
                 peer.send(data)
                 if step["end"] == "rst":
                     peer.abort()
+                elif step["end"] == "stall" and commtimeout:
+                    # the peer sends nothing more and does NOT hang up: with a communication timeout configured the daemon
+                    # itself must drop it (on the multiplex server nobody else is served while it waits for the rest)
+                    msgs, ended = peer.read_until_closed(limit=8)
+                    if ended[0] == "timeout":
+                        viol("stalled-client-not-dropped", "step %d: COMMTIMEOUT is %ss, but %ss after its last byte the silent peer is still connected" % (n, commtimeout, CEILING))
+                    peer.close()
                 else:
                     peer.half_close()
                     msgs, ended = peer.read_until_closed(limit=8)
@@ -550,6 +570,12 @@ def sweep_cases():
                     m = {"base": base, "ser": "marshal", "obj": "w", "method": "f", "raise_kind": RAISE_KINDS[v % len(RAISE_KINDS)], "flags": 0,
                          "muts": [[mut, v, (v % 7) - 3]] if mut else [], "garbage": b""}
                     yield {"steps": [{"kind": "hostile", "handshake": handshake, "msgs": [m], "end": "fin" if v % 2 else "rst"}]}
+    for base, handshake, cut in (("connect", False, 10), ("connect", False, 0), ("invoke", True, 20), ("invoke", True, 39), ("ping", True, 3)):
+        # (only different from a FIN ending in the COMMTIMEOUT shards) a silent peer after a PROPER PREFIX of a message: the daemon is
+        # in the middle of receiving (a peer that is silent between complete messages is merely idle: the multiplex server keeps it)
+        m = {"base": base, "ser": "marshal", "obj": "w", "method": "f", "raise_kind": "value", "flags": 0,
+             "muts": [["truncate", cut, 0]], "garbage": b""}
+        yield {"steps": [{"kind": "hostile", "handshake": handshake, "msgs": [m], "end": "stall"}, {"kind": "witness", "who": 0}]}
     for kind in RAISE_KINDS:
         for ser in ("marshal", "json", "serpent", "msgpack"):
             m = {"base": "raise", "ser": ser, "obj": "w", "method": "f", "raise_kind": kind, "flags": 0, "muts": [], "garbage": b""}
@@ -557,6 +583,9 @@ def sweep_cases():
             m = dict(m, base="raise_cb")
             yield {"steps": [{"kind": "hostile", "handshake": True, "msgs": [m, dict(m, base="invoke")], "end": "fin"},
                              {"kind": "witness", "who": 0}]}
+            for flags in (0, 4):
+                m = dict(m, base="raise_ann", flags=flags)
+                yield {"steps": [{"kind": "hostile", "handshake": True, "msgs": [m], "end": "fin"}, {"kind": "witness", "who": 0}, {"kind": "witness", "who": 1}]}
 
 
 def SHARDS(tier):
